@@ -47,7 +47,9 @@ def generate(ctx):
             steps.append({"set": which, "value": val, "pushes_after": rng.randint(0, 3)})
         yield {"part": "temporal", "dt": dt0, "duration": dur0, "inclusive": inc0,
                "storage": rng.choice(STORAGES), "shape": list(rng.choice([(), (2,), (2, 3)])),
-               "pushes": rng.choice([0, 1, 2, 5, 11, 23]), "ptr_extra": rng.randint(0, 9), "steps": steps}
+               "pushes": rng.choice([0, 1, 2, 5, 11, 23]), "ptr_extra": rng.randint(0, 9), "steps": steps,
+               # element type of the stored observations (integer observations beyond 2**24 do not survive a detour through float32)
+               "store_dtype": rng.choice([None, None, None, "int64", "bool", "float64", "int32"])}
     for _ in range(2500 if thorough else 160):
         shape = rng.choice([(2,), (3, 2), (2, 3, 2)])
         ops = []
@@ -95,9 +97,9 @@ def _np(t):
 # (a) temporal setters
 # ------------------------------------------------------------------------------------------
 
-def _mk_value(storage, shape):
+def _mk_value(storage, shape, dtype=None):
     if storage == "buffer":
-        return torch.zeros(shape)
+        return torch.zeros(shape, dtype=dtype)
     if storage == "param":
         return nn.Parameter(torch.zeros(shape), requires_grad=False)
     if storage == "none":
@@ -117,7 +119,10 @@ def _run_temporal(ctx, desc):
     shape = tuple(desc["shape"])
     numel = int(np.prod(shape)) if shape else 1
     owner = inferno.Module()
-    RecordTensor.create(owner, "rec", desc["dt"], desc["duration"], _mk_value(desc["storage"], shape),
+    sdt = {None: None, "int64": torch.int64, "int32": torch.int32, "bool": torch.bool, "float64": torch.float64}[desc.get("store_dtype")]
+    if desc["storage"] != "buffer":
+        sdt = None
+    RecordTensor.create(owner, "rec", desc["dt"], desc["duration"], _mk_value(desc["storage"], shape, sdt),
                         inclusive=desc["inclusive"])
     rt = owner.rec
     cur = {"dt": desc["dt"], "duration": desc["duration"], "inclusive": desc["inclusive"]}
@@ -129,7 +134,14 @@ def _run_temporal(ctx, desc):
     def push():
         ctr[0] += 1
         x = (ctr[0] * 32 + np.arange(numel, dtype=np.float64)).reshape(shape)
-        rt.push(torch.from_numpy(x).to(torch.float32))
+        if sdt in (torch.int64, torch.float64):
+            rt.push((torch.from_numpy(x) + 2.0 ** 40 + 1).to(sdt))
+        elif sdt == torch.int32:
+            rt.push((torch.from_numpy(x) + 2.0 ** 30 + 1).to(sdt))
+        elif sdt == torch.bool:
+            rt.push(torch.as_tensor(np.asarray((x + ctr[0] // 3) % 2 == 0)))
+        else:
+            rt.push(torch.from_numpy(x).to(torch.float32))
 
     initialised_kinds = ("buffer", "param")
     lazy = desc["storage"] not in initialised_kinds
@@ -177,6 +189,11 @@ def _run_temporal(ctx, desc):
             if val.shape[0] != exp_n or tuple(val.shape[1:]) != shape:
                 ctx.violation(f"temporal.{st['set']}.{kind}.storage_shape", f"storage shape {tuple(val.shape)}", rdesc)
                 return
+            if sdt is not None:
+                ctx.count("resizes_of_records_with_other_element_types")
+                if val.dtype != sdt:
+                    ctx.violation(f"temporal.{st['set']}.{kind}.storage_dtype_changed", f"storage was {sdt}, is {val.dtype} after the resize", rdesc)
+                    return
             if was_param and not isinstance(val, nn.Parameter):
                 ctx.violation(f"temporal.{st['set']}.{kind}.parameter_lost", "storage is no longer a Parameter", rdesc)
                 return
